@@ -236,6 +236,11 @@ def run_check(chk, tier, seed, replay, t0):
                     for c in batch:
                         x = vv.get(c["id"])
                         if x and x["spec"] != "ok":
+                            # a neighbour that merely re-finds a RECORDED finding explains nothing about this broken
+                            # correspondence: keep searching (otherwise an open finding would mask the alarm)
+                            sg = chk.signature(c, x) if hasattr(chk, "signature") else failing_kind(x)
+                            if any(e.get("signature") == sg for e in known):
+                                continue
                             found = (c, x, rr.get(c["id"], {}), build)
                             break
             if found:
